@@ -99,6 +99,7 @@ func sharedPortWorld(g *hx.Gen, dist map[string]int, nreq int) ([]string, error)
 		c.VhostHTTPPort = c.BindPort
 		c.VhostHTTPSPort = c.BindPort
 		c.TCPMuxHTTPConnectPort = hx.FreePort(addr)
+		c.SubDomainHost = "sub.test"
 	})
 	if err != nil {
 		return nil, err
@@ -115,11 +116,17 @@ func sharedPortWorld(g *hx.Gen, dist map[string]int, nreq int) ([]string, error)
 	var names []string
 	var httpRoutes, httpsRoutes, muxRoutes []sysRoute
 	owner := int64(0)
-	// http proxies: each one custom domain, one or two locations, maybe a user restriction
-	httpTriples := pickDistinct(g, 3+g.Intn(4), func() triple {
-		return triple{g.Pick(sysDomains), g.Pick([]string{"", "", "/a", "/a/b", "/ab"}), g.Pick([]string{"", "", "u1"})}
-	})
-	for _, t := range httpTriples {
+	// http proxies: one or two custom domains, one or two locations, maybe a subdomain and a user
+	// restriction -- so that one proxy owns several routes (server/proxy/http.go registers one route per
+	// domain x location and must remove exactly those when the proxy closes)
+	type httpPxy struct {
+		cfg    *v1.HTTPProxyConfig
+		routes []triple
+		owner  int64
+	}
+	usedHTTP := map[string]bool{}
+	keyOf := func(t triple) string { return strings.ToLower(t.d) + "\x00" + t.l + "\x00" + t.u }
+	mkHTTP := func(name string, routes []triple, doms, locs []string, sub, user string) (*httpPxy, error) {
 		owner++
 		ln, hs, err := startHTTPBackend(baddr, owner)
 		if err != nil {
@@ -127,18 +134,70 @@ func sharedPortWorld(g *hx.Gen, dist map[string]int, nreq int) ([]string, error)
 		}
 		closers = append(closers, hs)
 		p := &v1.HTTPProxyConfig{}
-		p.Name = fmt.Sprintf("http%d", owner)
+		p.Name = name
 		p.Type = "http"
 		p.LocalIP = baddr
 		p.LocalPort = portOf(ln)
-		p.CustomDomains = []string{t.d}
-		if t.l != "" {
-			p.Locations = []string{t.l}
+		p.CustomDomains = doms
+		p.SubDomain = sub
+		if !(len(locs) == 1 && locs[0] == "") {
+			p.Locations = locs
 		}
-		p.RouteByHTTPUser = t.u
-		proxies = append(proxies, p)
-		names = append(names, p.Name)
-		httpRoutes = append(httpRoutes, sysRoute{t, owner})
+		p.RouteByHTTPUser = user
+		return &httpPxy{cfg: p, routes: routes, owner: owner}, nil
+	}
+	locSets := [][]string{{""}, {""}, {"/a"}, {"/a", "/a/b"}, {"/", "/ab"}, {"/a/b", "/ab"}, {"", "/a"}}
+	var httpPxys []*httpPxy
+	nHTTP := 3 + g.Intn(3)
+	for tries := 0; len(httpPxys) < nHTTP && tries < 60; tries++ {
+		doms := []string{g.Pick(sysDomains)}
+		if g.Chance(0.4) {
+			if d2 := g.Pick(sysDomains); !strings.EqualFold(d2, doms[0]) {
+				doms = append(doms, d2)
+			}
+		}
+		locs := locSets[g.Intn(len(locSets))]
+		user := g.Pick([]string{"", "", "u1"})
+		sub := ""
+		if g.Chance(0.3) {
+			sub = fmt.Sprintf("s%d", g.Intn(3))
+		}
+		var routes []triple
+		for _, d := range doms {
+			for _, l := range locs {
+				routes = append(routes, triple{d, l, user})
+			}
+		}
+		if sub != "" {
+			for _, l := range locs {
+				routes = append(routes, triple{sub + ".sub.test", l, user})
+			}
+		}
+		clash := false
+		for _, t := range routes {
+			if usedHTTP[keyOf(t)] {
+				clash = true
+			}
+		}
+		if clash {
+			continue
+		}
+		for _, t := range routes {
+			usedHTTP[keyOf(t)] = true
+		}
+		hp, err := mkHTTP(fmt.Sprintf("http%d", owner+1), routes, doms, locs, sub, user)
+		if err != nil {
+			return nil, err
+		}
+		httpPxys = append(httpPxys, hp)
+		proxies = append(proxies, hp.cfg)
+		names = append(names, hp.cfg.Name)
+		for _, t := range routes {
+			httpRoutes = append(httpRoutes, sysRoute{t, hp.owner})
+		}
+		if len(routes) > 1 {
+			dist["http proxy with several routes"]++
+		}
 	}
 	httpsTriples := pickDistinct(g, 2+g.Intn(3), func() triple { return triple{g.Pick(sysDomains), "", ""} })
 	for _, t := range httpsTriples {
@@ -212,15 +271,7 @@ func sharedPortWorld(g *hx.Gen, dist map[string]int, nreq int) ([]string, error)
 		ops := addOps(httpRoutes)
 		tr := &http.Transport{MaxIdleConnsPerHost: 2}
 		client := &http.Client{Transport: tr, Timeout: 10 * time.Second}
-		for i := 0; i < nreq; i++ {
-			h, p, u := reqFor(g, liveOf(httpRoutes), reqHosts)
-			if h == "" || strings.Contains(h, "*") || strings.HasPrefix(h, ".") || strings.Contains(h, "..") {
-				h = "a.example.com"
-			}
-			if p == "" || p[0] != '/' {
-				p = "/" + p
-			}
-			h += g.Pick([]string{"", "", ":80", ".", ".:8080"})
+		get := func(h, p, u string) (int64, bool, error) {
 			req, _ := http.NewRequest("GET", "http://"+front+p, nil)
 			req.Host = h
 			if u != "" {
@@ -228,22 +279,148 @@ func sharedPortWorld(g *hx.Gen, dist map[string]int, nreq int) ([]string, error)
 			}
 			resp, err := client.Do(req)
 			if err != nil {
-				return nil, fmt.Errorf("http request %s %s: %v", h, p, err)
+				return 0, false, fmt.Errorf("http request %s %s: %v", h, p, err)
 			}
 			_, _ = io.Copy(io.Discard, resp.Body)
 			_ = resp.Body.Close()
-			var lbl int64
-			ok := false
 			switch resp.StatusCode {
 			case 200:
-				lbl, _ = strconv.ParseInt(resp.Header.Get("X-Backend"), 10, 64)
-				ok = true
+				lbl, _ := strconv.ParseInt(resp.Header.Get("X-Backend"), 10, 64)
+				return lbl, true, nil
 			case 404:
-			default:
-				return nil, fmt.Errorf("http request %s %s: status %d", h, p, resp.StatusCode)
+				return 0, false, nil
 			}
-			dist["shared-port http"]++
-			ops = append(ops, fmt.Sprintf("OVhost true %s %s %s %s", hx.HxS(h), hx.HxS(p), hx.HxS(u), optZ(lbl, ok)))
+			return 0, false, fmt.Errorf("http request %s %s: status %d", h, p, resp.StatusCode)
+		}
+		hostFor := func(t triple) string {
+			switch {
+			case t.d == "*":
+				return "any.org"
+			case strings.HasPrefix(t.d, "*."):
+				return "w" + t.d[1:]
+			}
+			return t.d
+		}
+		requests := func(n int, focus []triple) error {
+			for i := 0; i < n; i++ {
+				h, p, u := reqFor(g, liveOf(httpRoutes), reqHosts)
+				if len(focus) > 0 && g.Chance(0.6) {
+					t := focus[g.Intn(len(focus))]
+					h, p, u = hostFor(t), t.l+g.Pick([]string{"", "/x"}), t.u
+				}
+				if h == "" || strings.Contains(h, "*") || strings.HasPrefix(h, ".") || strings.Contains(h, "..") {
+					h = "a.example.com"
+				}
+				if p == "" || p[0] != '/' {
+					p = "/" + p
+				}
+				h += g.Pick([]string{"", "", ":80", ".", ".:8080"})
+				lbl, ok, err := get(h, p, u)
+				if err != nil {
+					return err
+				}
+				dist["shared-port http"]++
+				ops = append(ops, fmt.Sprintf("OVhost true %s %s %s %s", hx.HxS(h), hx.HxS(p), hx.HxS(u), optZ(lbl, ok)))
+			}
+			return nil
+		}
+		if err := requests(nreq, nil); err != nil {
+			return nil, err
+		}
+		// phase 2: some http proxies are removed from the client's configuration (CloseProxy); every
+		// route of a removed proxy must be gone, and nothing else
+		var kept, removed []*httpPxy
+		for _, hp := range httpPxys {
+			if len(removed) < 2 && (len(hp.routes) > 1 || g.Chance(0.3)) {
+				removed = append(removed, hp)
+			} else {
+				kept = append(kept, hp)
+			}
+		}
+		current := func(hs []*httpPxy) []v1.ProxyConfigurer {
+			var ps []v1.ProxyConfigurer
+			for _, p := range proxies {
+				if _, isHTTP := p.(*v1.HTTPProxyConfig); !isHTTP {
+					ps = append(ps, p)
+				}
+			}
+			for _, hp := range hs {
+				ps = append(ps, hp.cfg)
+			}
+			return ps
+		}
+		if len(removed) > 0 {
+			if err := cl.Svc.UpdateAllConfigurer(current(kept), nil); err != nil {
+				return nil, err
+			}
+			var focus []triple
+			for _, hp := range removed {
+				// wait until the server has closed the proxy: the route it registered last stops answering
+				last := hp.routes[len(hp.routes)-1]
+				deadline := time.Now().Add(3 * time.Second)
+				for time.Now().Before(deadline) {
+					lbl, ok, err := get(hostFor(last), last.l+"/probe", last.u)
+					if err != nil {
+						return nil, err
+					}
+					if !ok || lbl != hp.owner {
+						break
+					}
+					time.Sleep(10 * time.Millisecond)
+				}
+				for _, t := range hp.routes {
+					ops = append(ops, fmt.Sprintf("ODel %s %s %s", hx.HxS(t.d), hx.HxS(t.l), hx.HxS(t.u)))
+					focus = append(focus, t)
+				}
+				nl := httpRoutes[:0]
+				for _, r := range httpRoutes {
+					if r.owner != hp.owner {
+						nl = append(nl, r)
+					}
+				}
+				httpRoutes = nl
+				dist["http proxy closed"]++
+			}
+			time.Sleep(30 * time.Millisecond)
+			if err := requests(nreq/2, focus); err != nil {
+				return nil, err
+			}
+			// phase 3: other proxies take over exactly the routes of the removed ones
+			var added []*httpPxy
+			for _, hp := range removed {
+				np, err := mkHTTP(fmt.Sprintf("http%d", owner+1), hp.routes, hp.cfg.CustomDomains, hp.cfg.Locations, hp.cfg.SubDomain, hp.cfg.RouteByHTTPUser)
+				if err != nil {
+					return nil, err
+				}
+				if len(np.cfg.Locations) == 0 {
+					np.cfg.Locations = nil
+				}
+				added = append(added, np)
+			}
+			all := append(append([]*httpPxy{}, kept...), added...)
+			ps := current(all)
+			for _, np := range added {
+				np.cfg.Complete("")
+			}
+			if err := cl.Svc.UpdateAllConfigurer(ps, nil); err != nil {
+				return nil, err
+			}
+			for _, np := range added {
+				running := cl.WaitProxyRunning(np.cfg.Name, 3*time.Second)
+				if !running {
+					dist["proxy not running"]++
+				}
+				for _, t := range np.routes {
+					ops = append(ops, fmt.Sprintf("OAdd %s %s %s %d %s", hx.HxS(t.d), hx.HxS(t.l), hx.HxS(t.u), np.owner, hx.Bool(running)))
+					if running {
+						httpRoutes = append(httpRoutes, sysRoute{t, np.owner})
+					}
+				}
+				dist["http proxy re-created by another owner"]++
+			}
+			if err := requests(nreq/2, focus); err != nil {
+				return nil, err
+			}
 		}
 		tr.CloseIdleConnections()
 		cases = append(cases, "CRouter 1 "+hx.List(ops))
